@@ -222,25 +222,37 @@ def check(run, prog, tier):
     run.paths += len(npaths)
     svc_send = prog.lookup_method("service.SimpleService", "send")
     checked = 0
+    build_q = prog.lookup_method("header.SOMEIPHeader", "build").qual
     for p in npaths:
+        if p.outcome[0] == "raise":
+            continue
         ac = calls_to(p, ASSIGN)
         sc = calls_to(p, svc_send.qual)
-        news = [e for e in p.events if e.kind == "call" and e.result is not None and e.result[0] == "new" and e.result[1] == "header.SOMEIPHeader"]
-        if not news and not ac and not sc:
+        builds = [e for e in p.events if e.kind == "call" and any(f.qual == build_q for f in e.targets) and e.recv is not None and e.recv[0] == "new"]
+        if not builds and not ac and not sc:
             continue
         checked += 1
-        ok = len(ac) == len(news) and len(sc) <= 1
-        detail = f"{len(ac)} id(s) for {len(news)} notification header(s), {len(sc)} transmission(s)"
-        if ok:
-            for a, n in zip(ac, news):
-                sid = dict(n.result[2]).get("session_id")
-                if sid != ("item", a.result, const_(1)):
-                    ok = False
-                    detail = f"notification header uses session_id={show(sid)}, not the id just taken"
-                if sc and a.args[:1] != (sc[0].arg(1, "remote"),):
-                    ok = False
-                    detail = f"id taken for {show(a.args[0]) if a.args else '?'} but datagram sent to {show(sc[0].arg(1, 'remote'))}"
-        run.ob("Q3", f"{ns.qual}:per-destination-id[{len(news)} event(s)]", ok, loc(ns), detail)
+        ok = True
+        detail = f"{len(ac)} id(s) taken for {len(builds)} notification message(s), {len(sc)} datagram(s)"
+        ids = []
+        for b_ in builds:
+            sid = dict(b_.recv[2]).get("session_id")
+            src = [a for a in ac if sid == ("item", a.result, const_(1))]
+            if not src:
+                ok = False
+                detail = f"a notification message carries session_id={show(sid)[:60]}, not an id handed out by assign_outgoing"
+                break
+            ids.append(src[0])
+            if sc and src[0].args[:1] != (sc[0].arg(1, "remote"),):
+                ok = False
+                detail = f"id taken for {show(src[0].args[0]) if src[0].args else '?'} but the datagram goes to {show(sc[0].arg(1, 'remote'))}"
+        if ok and len({id(a) for a in ids}) != len(builds):
+            ok = False
+            detail = f"{len(builds)} notification messages share {len({id(a) for a in ids})} session id(s): every message needs its own id"
+        if ok and len(ac) != len(builds):
+            ok = False
+            detail = f"{len(ac)} id(s) consumed for {len(builds)} message(s) sent: ids are skipped (an id is taken although nothing is sent for it)"
+        run.ob("Q3", f"{ns.qual}:one-id-per-message[{len(builds)} event(s)]", ok, loc(ns), detail)
     run.floor("Q3-notify-paths", checked, 2)
 
     # ------------------------------------------------------------------ Q5 who may send
